@@ -989,14 +989,17 @@ class YAMLPath:
 
         Returns:  (str) `value` with all `symbols` escaped
         """
-        escaped: str = value
-        for symbol in symbols:
-            replace_term: str = "\\{}".format(symbol)
-            oparts: List[str] = str(escaped).split(replace_term)
-            eparts: List[str] = []
-            for opart in oparts:
-                eparts.append(opart.replace(symbol, replace_term))
-            escaped = replace_term.join(eparts)
+        escaped: str = ""
+        escape_next: bool = False
+        for char in str(value):
+            if escape_next:
+                # This character is already escaped, whatever it is
+                escape_next = False
+            elif char == "\\":
+                escape_next = True
+            elif char in symbols:
+                escaped += "\\"
+            escaped += char
         return escaped
 
     @staticmethod
